@@ -104,7 +104,7 @@ CHECKS["C07"] = {
   "technique": TECH,
 }
 NOT_APPLICABLE = {
- "C13": "not decided in this round: the reconstruction measures run their default estimator Ridge2FoldCV (fold SVDs of centred, scaled data whose singular frames are outside the verified-frame library) and, for GRD, OrthogonalRegression on top of it; the symbolic engine reaches both components separately (C10, C18, C11) but a harness for the composed measures with a closed-form estimator was not built and validated in the time available. One defect seen by replay in the design round (GRD with X wider than Y raises a broadcast ValueError) is therefore neither claimed nor listed as found by a check.",
+ "C13": "not decided in this round: the reconstruction measures run their default estimator Ridge2FoldCV (fold SVDs of centred, scaled data whose singular frames are outside the verified-frame library) and, for GRD, OrthogonalRegression on top of it; the symbolic engine reaches both components separately (C10, C18, C11) a harness for GRE / LRE with the real StandardFlexibleScaler and a user-supplied closed-form least-squares estimator was written (attic/c13_unfinished.py) but none of its configurations finished within 500 s (gcd on the scaler + least-squares rational chains of a fully symbolic 4x2 matrix), so nothing is claimed. One defect seen by replay in the design round (GRD with X wider than Y raises a broadcast ValueError) is therefore neither claimed nor listed as found by a check.",
  "C17": "solver-based checking cannot decide the core of this property: score_samples is a log-sum-exp of Gaussians and the bandwidths come from data-dependent while-loops over exp / effective dimension (eigenvalues + log) / non-integer powers; z3 and cvc5 have no transcendental reasoning and uninterpreted exp/log leave the mixture formula, positive definiteness after shrinkage and translation invariance of the log-density undecided. The decidable fragment (nearest-grid assignment, weight sums, free-space covariance algebra) was not built in the time available, so nothing is claimed.",
  "C19": "the property is about scipy.spatial.ConvexHull (qhull) output; encoding it needs a stub of the convex hull by its definition (facets = d-subsets with all points on one side, general position assumed) plus interp1d / LinearNDInterpolator stubs; this stub was designed (DESIGN.md history) but not built and validated against qhull in the time available, so the property is not claimed rather than checked with another technique.",
 }
